@@ -12,6 +12,8 @@ import (
 	"math/rand"
 	"os"
 	"reflect"
+
+	stackage "github.com/JesseCoretta/go-stackage"
 )
 
 type TTrans struct {
@@ -126,6 +128,9 @@ func RunReplayIdx(r *Replay) (string, []string, int) {
 		if len(ret) > 0 && (ret[0] == "PANIC" || ret[0] == "DEADLOCK") && !(len(st.ExpRet) > 0 && st.ExpRet[0] == ret[0]) {
 			return "panic", []string{fmt.Sprintf("step %d %v: %v", i, st.C, ret)}, i
 		}
+		if lk := lockLeft(o, d); lk != "" && (ObsFields == nil || ObsFields["locked"]) {
+			return "obs", []string{fmt.Sprintf("step %d %v: %s", i, st.C, lk), "locked: expected \"false\" observed \"true\""}, i
+		}
 		if !reflect.DeepEqual(ret, st.ExpRet) {
 			return "ret", []string{fmt.Sprintf("step %d %v: expected ret %v observed %v", i, st.C, st.ExpRet, ret)}, i
 		}
@@ -141,6 +146,23 @@ func RunReplayIdx(r *Replay) (string, []string, int) {
 		}
 	}
 	return "", nil, -1
+}
+
+// lockLeft reports a mutex (or its bookkeeping) left held after a call returned.
+func lockLeft(objs ...*Obj) (msg string) {
+	defer func() { _ = recover() }()
+	for _, o := range objs {
+		if o == nil || o.S.IsZero() || !o.S.CanMutex() {
+			continue
+		}
+		d := stackage.VerifDump(o.S)
+		if cfg, ok := d["cfg"].(map[string]any); ok {
+			if cfg["mtxlocked"] == true || cfg["ldr"] == true {
+				return "the stack's mutex / lock bookkeeping is still held after the call returned"
+			}
+		}
+	}
+	return ""
 }
 
 type Replayer struct {
